@@ -52,8 +52,8 @@ def _bad(v):
 
 def budgets(run):
     q = run.tier == 'quick'
-    return {'repo_cap': None, 'skel_stmts': 4 if q else 5, 'skel_depth': 3, 'skel_cap': 500 if q else 3000,
-            'random_n': 150 if q else 1200, 'random_size': 12 if q else 16, 'scenario_scale': 1 if q else 4,
+    return {'repo_cap': None, 'skel_stmts': 4 if q else 5, 'skel_depth': 3, 'skel_cap': 500 if q else 2500,
+            'random_n': 150 if q else 1000, 'random_size': 12 if q else 16, 'scenario_scale': 1 if q else 4,
             'runs_per_program': 6 if q else 12}
 
 
